@@ -275,7 +275,7 @@ def field_matrix(full_product=False):
         for vi, v in enumerate(values_for(path, long=True)):
             for kind, full, base in (app if full_product else [app[(pi + vi) % len(app)]]):
                 out.append(dict(kind='field/' + path_label(path), layout=kind + ('-full' if full else '-min'),
-                                x=bstrict.ser(put(base, path, v))))
+                                path=path_label(path), x=bstrict.ser(put(base, path, v))))
     return out
 
 
@@ -353,6 +353,95 @@ def number_ladder():
             add('pair-fitted', put(md, (b'info', b'piece length'), _fit(a + b) + K16))
             if a + b > K16:
                 add('pair-fitted', put(md, (b'info', b'piece length'), _fit(a + b) - K16))   # two pieces needed, one there
+    return out
+
+
+# ----------------------------------------------------------------------- numbers stored as text (round 4)
+# every field the reader, validate() or a getter converts or compares as a number gets *numeric-looking strings*:
+# what str.isdigit() / bytes.isdigit() let through and int() / float() / datetime do not (or the other way round).
+
+DIGIT_LENGTHS = (1, 2, 10, 19, 20, 39, 308, 309, 310, 4299, 4300, 4301, 5000)
+NUM_FORMS = ['0', '1', '-1', '+1', '-0', '+0', '00', '007', ' 5', '5 ', ' 5 ', '\t5\n', '\x0b5\x0c', '5\x00', '\x1c5', '5\x85', '\xa05',
+             '5\u3000', '\u200b5', '\ufeff5', '1_000', '1__0', '_1', '1_', '1_0_0', '+-1', '--1', '- 1', '0x10', '0X1f', '0o7', '0b1', '1e5',
+             '1E5', '1e400', '1.0', '1.', '.5', '1.5', '-1.5', '1,000', '1 000', 'inf', '-inf', 'Infinity', 'nan', 'NaN', '-nan', 'True',
+             'None', '1j', '1L', '1n', '\u0661\u0662\u0663', '\u0665', '\uff15', '\uff11\uff12\uff13', '-\uff15', '\u06f5', '\u096b',
+             '\U0001d7d3', '\xb2', '\xb9\xb2\xb3', '\u0663\xb2', '5\xb2', '\u2464', '\u2160', '\xbd', '\u3007', '\u4e94', '\u0f33',
+             '1\u0661', '\uff10x10', '1\uff3f0', '\u22125', '\uff0b5', '\uff0d5']
+NUM_LONG = ['-' + '9' * 4300, '-' + '9' * 4301, '+' + '9' * 4301, ' ' + '9' * 4301, '9' * 4301 + ' ', '9' * 4301 + '\n', '9' * 4300 + '\xb2',
+            '\xb2' * 4301, '\uff19' * 4300, '\uff19' * 4301, '\u0663' * 4301, '9' + '_9' * 4299, '9' + '_9' * 4300, '9' * 2150 + '_' + '9' * 2151,
+            '0' * 4300 + '_1', '1.' + '0' * 4301, '1e' + '9' * 4301, '0x' + 'f' * 4301, '9' * 4301 + 'x', 'x' + '9' * 4301]
+NUM_NON_UTF8 = [b'123\xff', b'\xff123', b'\xb2', b'12\xb3', b'\xb9\xb2\xb3', b'1\x80', b'\xc0\xb1', b'\xed\xa0\xb1', b'9' * 4301 + b'\xff',
+                b'\xff' + b'9' * 4301, b'\xb2' * 4301]
+
+
+def digit_runs(lengths=DIGIT_LENGTHS):
+    out = []
+    for k in lengths:
+        out += ['9' * k, '1' + '0' * (k - 1), '0' * k]
+        if k > 1:
+            out.append('0' * (k - 1) + '1')
+    return out
+
+
+def numeric_strings(long=True):
+    """byte strings that look like numbers: ASCII digit runs around every border (64-bit, float range, the 4300-digit
+    limit, 10^5 digits), signs, white space, underscores, other radixes, exponents / floats / inf / nan, Unicode decimal
+    digits (int() accepts), other Unicode digits and numerics (isdigit() true, int() refuses), look-alike signs — as
+    UTF-8 and as byte strings that are not UTF-8"""
+    vs = [t.encode('utf8') for t in digit_runs() + NUM_FORMS + NUM_LONG] + list(NUM_NON_UTF8)
+    if long:
+        vs += [b'9' * 100000, b'0' * 99999 + b'1', '\uff19'.encode('utf8') * 20000]
+    return vs
+
+
+# fields whose value a reader / validator / getter treats as a number, and URL fields whose port is one
+NUM_FIELDS = [(b'creation date',), (b'info', b'private'), (b'info', b'length'), (b'info', b'piece length'),
+              (b'info', b'files', 0, b'length'), (b'info', b'files', 1, b'length'), (b'info', b'pieces'), (b'encoding',)]
+PORT_FIELDS = [(b'announce',), (b'announce-list', 0, 0), (b'url-list', 0), (b'url-list',), (b'httpseeds', 0)]
+
+
+def numeric_string_cases(full_product=False):
+    """the ladder of numeric-looking strings in every numeric field and as the port of every URL field, in otherwise
+    valid single- and multi-file torrents"""
+    lays = [(k, f, layout(k, f)) for k in ('single', 'multi') for f in (True, False)]
+    out = []
+    vals = numeric_strings(long=True)
+    for pi, path in enumerate(NUM_FIELDS + PORT_FIELDS):
+        app = [l for l in lays if not (b'files' in path and l[0] == 'single' and not l[1])]
+        for vi, v in enumerate(vals):
+            if path in PORT_FIELDS:
+                if len(v) > 6000:
+                    continue
+                v = b'http://tracker.example.org:' + v + b'/announce'
+            for kind, full, base in (app if full_product else [app[(pi + vi) % len(app)]]):
+                out.append(dict(kind='numstr/' + path_label(path), layout=kind + ('-full' if full else '-min'),
+                                path=path_label(path), x=bstrict.ser(put(base, path, v))))
+    return out
+
+
+def sweep_values():
+    """everything the search puts into one field: hostile text, values of every type, the number ladder, the
+    numeric-looking strings and their long forms"""
+    vs = hostile_values(long=True) + list(LADDER) + numeric_strings(long=True)
+    vs += [b'http://tracker.example.org:' + v + b'/announce' for v in numeric_strings(long=False) if len(v) < 6000]
+    return vs
+
+
+def parse_path_label(label):
+    return tuple(int(p) if p.isdigit() else p.encode() for p in label.split('.'))
+
+
+def field_sweep(path, bases):
+    """every sweep value at `path` of every base metainfo"""
+    out = []
+    vals = sweep_values()
+    for bi, base in enumerate(bases):
+        for v in vals:
+            try:
+                x = bstrict.ser(put(base, path, v))
+            except Exception:   # noqa
+                continue
+            out.append(dict(kind='sweep/' + path_label(path), path=path_label(path), x=x))
     return out
 
 
@@ -532,7 +621,10 @@ XT_VARIANTS = [H40, H40.upper(), B32, B32.upper(), 'urn:btih:' + H40, 'URN:BTIH:
                'urn:sha1:' + H40, '', ' ', H40 + '\n', '\n' + H40, ' ' + H40, H40 + ' ', 'g' * 40, '1' * 32, '8' * 32,
                'z' * 32, 'z' * 40, 'k' * 31 + 'K', 's' * 31 + 'ſ', 'i' * 31 + 'İ', 'i' * 31 + 'ı',
                'a' * 39 + 'ſ', 'urn:btİh:' + H40, 'urn:btıh:' + H40, 'urn:btih:' + 'k' * 31 + 'K',
-               'ａ' * 40, '١' * 40, '0' * 40, '0' * 32, 'urn:btih:urn:btih:' + H40, 'urn%3Abtih%3A' + H40]
+               'ａ' * 40, '١' * 40, '0' * 40, '0' * 32, 'urn:btih:urn:btih:' + H40, 'urn%3Abtih%3A' + H40,
+               'urn:btmh:1220caf1e1c30e81cb361b9ee167c4aa64228a7fa4fa9f6105232b28ad099f3a302e', 'URN:BTMH:1220' + H40, 'urn:btmh:',
+               'urn:ed2k:' + H40[:32], 'urn:tree:tiger:' + B32, 'urn:md5:' + H40[:32], 'urn:bitprint:' + B32 + '.' + B32,
+               'urn:btmh:1220caf1e1c30e81cb361b9ee167c4aa64228a7fa4fa9f6105232b28ad099f3a302e', 'urn:btih:' + B32]
 XLS = ['0', '1', '-1', '5', '1e5', '1.5', '9' * 20, '9' * 4300, '9' * 4301, '-' + '9' * 4301, '+5', ' 5 ', '1_0',
        '0x10', '', '١٢', '５', '--5', '5 5', 'five', '²', '00', '1__0', '_1', '\n7\n', '0.0', 'inf',
        'nan', 'True', '2' * 4299]
@@ -577,6 +669,142 @@ def magnet_fixed():
     out.append(dict(kind='magnet/surrogate', uri='magnet:?xt=\udc80', modelled=False))
     out.append(dict(kind='magnet/astral', uri=base + '&dn=\U0001f600', modelled=False))
     return out
+
+
+# ------------------------------------------------------------------ exact topics real links carry (round 4)
+H64 = 'caf1e1c30e81cb361b9ee167c4aa64228a7fa4fa9f6105232b28ad099f3a302e'
+B39 = 'LWPNACQDBZRYXW3VHJVCJ64QBZNGHOHHHZWCLNQ'
+TOPICS = {
+    'btih-hex': 'urn:btih:' + H40, 'btih-b32': 'urn:btih:' + B32, 'bare-hex': H40, 'bare-b32': B32,
+    'btmh': 'urn:btmh:1220' + H64, 'btmh-short': 'urn:btmh:1220' + H40, 'btmh-empty': 'urn:btmh:', 'btmh-nocolon': 'urn:btmh',
+    'btmh-junk': 'urn:btmh:xyz', 'btmh-blake': 'urn:btmh:1e20' + H64, 'btih-v2hash': 'urn:btih:' + H64, 'bare-64hex': H64,
+    'bare-multihash': '1220' + H64, 'sha1': 'urn:sha1:' + B32.upper(), 'ed2k': 'urn:ed2k:' + H40[:32], 'ed2khash': 'urn:ed2khash:' + H40[:32],
+    'tiger': 'urn:tree:tiger:' + B39, 'md5': 'urn:md5:' + H40[:32], 'aich': 'urn:aich:' + B32.upper(), 'kzhash': 'urn:kzhash:' + H40 + H40[:32],
+    'bitprint': 'urn:bitprint:' + B32.upper() + '.' + B39, 'crc32': 'urn:crc32:1a2b3c4d', 'urn-only': 'urn:', 'uuid': 'urn:uuid:' + H40[:32],
+}
+TOPIC_CORE = ['btih-hex', 'btih-b32', 'bare-hex', 'btmh', 'btmh-blake', 'btmh-empty', 'sha1', 'ed2k', 'tiger', 'bitprint']
+
+
+def _case_variants(v):
+    """a topic with its prefix in lower / upper / mixed case and with percent-encoded characters"""
+    i = v.rfind(':') + 1
+    pre, rest = v[:i], v[i:]
+    out = [v, pre.upper() + rest, pre.title() + rest, pre.swapcase() + rest.upper()]
+    if pre:
+        out += [pre.replace(':', '%3A') + rest, pre.replace(':', '%3a') + rest, '%75' + pre[1:] + rest,
+                ''.join('%%%02x' % ord(c) for c in pre) + rest, pre[:-1] + '%3A' + rest, q(v), ' ' + v, v + ' ', v + '%0A', pre + ' ' + rest]
+    return out
+
+
+def magnet_topics():
+    """exact topics of every URN namespace, alone, in pairs and triples in every order, with every multiplicity; numbered
+    xt.N parameters; case and percent-encoding of the prefix; the other BEP 9 / BEP 53 / common parameters"""
+    out = []
+
+    def add(kind, query):
+        out.append(dict(kind='magnet/topic-' + kind, uri='magnet:?' + query))
+
+    rest = '&dn=foo&tr=http%3A%2F%2Ftracker.example.org%2Fannounce'
+    for name, v in TOPICS.items():
+        for w in _case_variants(v):
+            add('single', 'xt=' + w)
+            add('single', 'xt=' + w + rest)
+            if name in TOPIC_CORE:
+                add('single', 'dn=foo&xt=' + w)
+        add('numbered', 'xt.1=' + v)
+        add('numbered', 'xt.1=' + v + '&xt.2=' + TOPICS['btih-hex'])
+        add('numbered', 'xt=' + TOPICS['btih-hex'] + '&xt.1=' + v)
+        add('x_', 'xt=' + TOPICS['btih-hex'] + '&x_xt=' + v)
+        for p in ('xs', 'as', 'kt', 'dn', 'ws', 'tr'):
+            add('elsewhere', 'xt=' + TOPICS['btih-hex'] + '&' + p + '=' + v)
+    for a in TOPIC_CORE:
+        for b in TOPIC_CORE:
+            add('pair', 'xt=' + TOPICS[a] + '&xt=' + TOPICS[b])
+            add('pair', 'xt=' + TOPICS[a] + '&dn=foo&xt=' + TOPICS[b] + rest)
+    import itertools
+    for tri in itertools.product(['btih-hex', 'btmh', 'sha1', 'btmh-blake'], repeat=3):
+        add('triple', '&'.join('xt=' + TOPICS[t] for t in tri))
+    for n in (3, 10, 100):
+        add('many', '&'.join(['xt=' + TOPICS['btmh']] * n))
+        add('many', '&'.join(['xt=' + TOPICS['btmh']] * n + ['xt=' + TOPICS['btih-hex']]))
+        add('many', '&'.join(['xt=' + TOPICS['btih-hex']] + ['xt=' + TOPICS['btmh']] * n))
+    base = 'xt=' + TOPICS['btih-hex']
+    for extra in ['so=0', 'so=0,2,4-6', 'so=', 'so=x', 'so=0&so=1', 'x.pe=1.2.3.4:6881', 'x.pe=[::1]:6881', 'x.pe=host:99999', 'x.pe=',
+                  'x.pe=a&x.pe=b', 'x_pe=1.2.3.4:6881', 'x.=1', 'x.a.b=1', 'mt=http://a/list', 'xs=urn:btih:' + H40, 'xs=dchub://hub:411',
+                  'as=urn:sha1:' + B32, 'kt=a+b&kt=c', 'select-only=0', 'select_only=0', 'fl=1', 'sl=1', 'xl=5&xl=5', 'dn=', 'tr=',
+                  'tr.1=http://a/', 'ws.1=http://a/', 'dn.1=a', 'XT=' + H40, 'Xt=' + H40, 'xT=' + TOPICS['btmh'], 'xt', 'xt=', 'xt==',
+                  'xt=&xt=' + TOPICS['btmh'], 'xt=' + TOPICS['btmh'] + '&xt=']:
+        add('param', base + '&' + extra)
+        add('param', extra + '&' + base)
+        add('param', 'xt=' + TOPICS['btmh'] + '&' + extra)
+        add('param', extra)
+    return out
+
+
+def magnet_numeric():
+    """the numeric-looking strings as xl and as the port of every URL parameter"""
+    out = []
+    base = 'magnet:?xt=urn:btih:' + H40
+    for v in numeric_strings(long=True):
+        try:
+            t = v.decode('utf8')
+        except UnicodeDecodeError:
+            t = ''.join('%%%02x' % b for b in v)            # not UTF-8: only percent-encoded
+            out.append(dict(kind='magnet/numstr-xl', uri=base + '&xl=' + t))
+            continue
+        out.append(dict(kind='magnet/numstr-xl', uri=base + '&xl=' + q(t)))
+        if t != q(t) and '&' not in t and '#' not in t:
+            out.append(dict(kind='magnet/numstr-xl', uri=base + '&xl=' + t))
+        if len(t) < 6000:
+            for p in ('tr', 'ws', 'xs', 'as'):
+                out.append(dict(kind='magnet/numstr-port', uri=base + '&' + p + '=' + q('http://h:' + t + '/a')))
+    return out
+
+
+def magnet_sweep(uri):
+    """search after a correspondence break on `uri`: its parameters alone, in pairs, dropped, doubled, reordered, and every
+    value replaced by the values of its class (topics, numeric strings, URLs)"""
+    head, sep, query = uri.partition('?')
+    if not sep:
+        head, query = 'magnet:', uri
+    fields = [f for f in query.split('&') if f]
+    out, seen = [], set()
+
+    def add(fs):
+        u = head + '?' + '&'.join(fs)
+        if u not in seen and len(seen) < 6000:
+            seen.add(u)
+            out.append(dict(kind='magnet/sweep', uri=u))
+
+    n = len(fields)
+    for i in range(n):
+        add([fields[i]])
+        add(fields[:i] + fields[i + 1:])
+        add(fields[:i] + [fields[i]] * 2 + fields[i + 1:])
+        add([fields[i]] * 2)
+        for j in range(n):
+            if i != j:
+                add([fields[i], fields[j]])
+    add(list(reversed(fields)))
+    pools = {'xt': [w for v in TOPICS.values() for w in _case_variants(v)],
+             'xl': [q(v.decode('utf8')) for v in numeric_strings(long=True) if _is_utf8(v)],
+             'url': [q(u) for u in GOOD_URLS + BAD_URLS] + [q('http://h:' + d + '/') for d in digit_runs()]}
+    for i, f in enumerate(fields):
+        k = f.partition('=')[0]
+        pool = pools['xt'] if k.lower().startswith('xt') else pools['xl'] if k == 'xl' else \
+            pools['url'] if k in ('tr', 'ws', 'xs', 'as') else pools['xt'][:40] + pools['xl'][:60]
+        for v in pool:
+            add(fields[:i] + [k + '=' + v] + fields[i + 1:])
+            add([k + '=' + v])
+    return out
+
+
+def _is_utf8(b):
+    try:
+        b.decode('utf8')
+        return True
+    except UnicodeDecodeError:
+        return False
 
 
 ESCAPES = ['%', '%%', '%z', '%zz', '%4', '%41', '%e9', '%E9', '%c3%a9', '%c3', '%00', '%0a', '%0A', '%26', '%3D', '%3d', '%2B',
